@@ -4,7 +4,8 @@ set -u
 P=$1; SRC=${2:-/tmp/mut2}
 cd "$(dirname "$0")/.."
 export GOFLAGS=-mod=mod GOPROXY=off GOSUMDB=off GOTOOLCHAIN=local
-for d in $SRC/$P/out/*/; do
+OUT=$SRC/$P/out; [ -d "$SRC/$P-out" ] && OUT=$SRC/$P-out
+for d in $OUT/*/; do
   [ -f "$d/patch.diff" ] || continue
   n=$(basename "$d"); t=seeded/$P-$n
   [ -d "$t" ] && { echo "exists $t"; continue; }
